@@ -25,6 +25,14 @@ def mutate_value(rng, v, prof):
     t = v[0]
     if t in ("list", "tuple") and rng.random() < 0.85:
         items = list(v[1])
+        if items and rng.random() < 0.15:
+            # the old sequence is a prefix of the new one AND the new one ends like the old one (or the other way round):
+            # common prefix and common suffix of the two sequences overlap
+            k = rng.randint(1, min(2, len(items)))
+            longer = items + [V.gen_value(rng, prof, 0, False) for _ in range(rng.randint(0, 1))] + items[-k:]
+            return [t, longer]
+        if len(items) >= 2 and items[-1] == items[0] and rng.random() < 0.3:
+            return [t, items[:-1]]
         for _ in range(rng.randint(1, 2)):
             k = rng.choice(["ins", "del", "rep", "swap", "deep"])
             if k == "ins" or not items:
@@ -85,6 +93,53 @@ def mutate_value(rng, v, prof):
                 fields[f] = V.gen_value(rng, prof, max(prof.max_depth - 1, 0), False)
         return ["dc", name, [[k, fields[k]] for k in V.CALL_TYPES[name] if k in fields]]
     return V.gen_value(rng, prof)
+
+
+def sprinkle_uni(prog, rng, p=0.15):
+    """non-ASCII text left of the snapshot() call on the same physical line, for a share of the comparison events"""
+    for f in prog["files"]:
+        for t in f["tests"]:
+            for e in t["events"]:
+                if e.get("t") == "cmp" and "var" not in e and "uni" not in e and rng.random() < p:
+                    e["uni"] = rng.choice(["äöü", "日本", "é", "Käse 🐍"])
+    return prog
+
+
+def add_twin_file(prog, rng, vary=True):
+    """a second file with the SAME text layout as the first one: identical function names on identical lines (copied / generated test
+    modules, one per backend), optionally with other integer data.  Site and event ids get a suffix, the rendered names stay."""
+    import copy
+
+    src = prog["files"][0]
+    names = {f["name"] for f in prog["files"]}
+    name = next(n for n in ("test_b.py", "test_c.py", "test_d.py", "test_e.py") if n not in names)
+    f = copy.deepcopy(src)
+    f["name"] = name
+    f["sites"] = {}
+    for sid, s in src["sites"].items():
+        s2 = copy.deepcopy(s)
+        s2.setdefault("name", sid)
+        f["sites"][sid + "w"] = s2
+
+    def bump(v):
+        if v[0] == "int" and not isinstance(v[1], bool):
+            return ["int", v[1] + 1]
+        if v[0] in ("list", "tuple"):
+            return [v[0], [bump(x) for x in v[1]]]
+        return v
+
+    for t in f["tests"]:
+        # free-text statements carry event ids inside their text: they are not copied
+        t["events"] = [e for e in t["events"] if e.get("t") != "stmt"]
+        for e in t["events"]:
+            if "eid" in e:
+                e["eid"] = e["eid"] + "w"
+            if "site" in e:
+                e["site"] = e["site"] + "w"
+            if vary and "vals" in e and all(s2.get("arg") is None for s2 in [f["sites"].get(e.get("site"), {})]):
+                e["vals"] = [bump(v) for v in e["vals"]]
+    prog["files"].append(f)
+    return f
 
 
 def _ordered_family(rng):
